@@ -85,8 +85,11 @@ Vars2 == {<<Stmt("evs", x), Stmt("a", f), Stmt("RETURN", D(<<E("s_abc", V("a")),
              Stmt("RETURN", C("limit_events", <<V("evs"), V("n")>>))>> : f \in KeyPreserving(V("evs"), V("evs2"))}
      \cup {<<Stmt("bid", C("find_bucket", <<S("bkt")>>)), Stmt("evs", C("query_bucket", <<V("bid")>>)), Stmt("RETURN", L(<<V("bid"), f>>))>> : f \in Other(V("evs"), V("evs"))}
 
+\* the same bucket is read again after a built-in has worked on (and possibly annotated, cleared or re-timed) the first read
+ReRead == {<<Stmt("a", f), Stmt("RETURN", L(<<V("a"), QB("b1")>>))>> : f \in KeyPreserving(QB("b1"), QB("b2")) \cup Other(QB("b1"), QB("b2"))}
+     \cup {<<Stmt("e1", QB("b2")), Stmt("a", f), Stmt("e2", QB("b2")), Stmt("RETURN", C("concat", <<V("e2"), V("a")>>))>> : f \in KeyPreserving(V("e1"), V("e1"))}
 Structural == Single(Atoms \cup Lists1 \cup Dicts1 \cup Lit2 \cup SCalls \cup InLits) \cup Vars1 \cup Reuse
-WithBuiltins == Single(Builtins1 \cup Builtins2 \cup BInLits) \cup Vars2
+WithBuiltins == Single(Builtins1 \cup Builtins2 \cup BInLits) \cup Vars2 \cup ReRead
 
 \* ---- random deeper programs -----------------------------------------------------------------
 Pick(Z) == RandomElement(Z)
@@ -118,7 +121,8 @@ ArgTypes(f) ==
 Wrong(ty) == CASE ty = "list" -> {I(5), S("s_abc"), D(<<>>)} [] ty = "str" -> {I(5), L(<<>>)} [] ty = "int" -> {S("s_abc"), L(<<I(1)>>)}
 \* a faulty expression placed bare, inside a list, as an argument, and after valid statements
 Contexts(e) == {<<Stmt("RETURN", e)>>, <<Stmt("RETURN", L(<<I(7), e>>))>>, <<Stmt("RETURN", C("concat", <<L(<<e>>), L(<<>>)>>))>>,
-                <<Stmt("x", C("nop", <<>>)), Stmt("y", e), Stmt("RETURN", V("x"))>>}
+                <<Stmt("x", C("nop", <<>>)), Stmt("y", e), Stmt("RETURN", V("x"))>>,
+                <<Stmt("RETURN", I(7)), Stmt("y", e)>>}          \* the whole text is checked, also what follows RETURN
 TooMany == {C(c.f, Append(c.a, I(1))) : c \in Templates}
 TooFew  == {C(c.f, SubSeq(c.a, 1, Len(c.a) - 1)) : c \in {d \in Templates : Len(d.a) >= 1 /\ ~(d.f = "find_bucket" /\ Len(d.a) = 2)}}
 WrongTy == UNION {UNION {{C(c.f, [c.a EXCEPT ![j] = w]) : w \in Wrong(ArgTypes(c.f)[j])} : j \in 1..Len(ArgTypes(c.f))} : c \in Templates}
